@@ -133,6 +133,8 @@ def z(x):
     """z3 Bool of a Bit / python bool / z3 expr"""
     if isinstance(x, Bit):
         return x.z
+    if isinstance(x, SInt):
+        return x.z != 0
     if isinstance(x, (bool, np.bool_)):
         return z3.BoolVal(bool(x))
     if isinstance(x, (int, np.integer)):
@@ -147,9 +149,9 @@ def zi(x):
     if isinstance(x, Bit):
         return z3.If(x.z, 1, 0)
     if isinstance(x, (bool, np.bool_)):
-        return z3.IntVal(int(x))
+        return z3.IntVal(1 if x else 0)
     if isinstance(x, (int, np.integer)):
-        return z3.IntVal(int(x))
+        return z3.IntVal(int.__index__(x) if type(x) is int else int(x))
     if isinstance(x, z3.ExprRef):
         return z3.If(x, 1, 0) if z3.is_bool(x) else x
     raise TypeError(type(x))
@@ -224,7 +226,7 @@ class Bit:
         return Bit(self.S, z3.simplify(z3.Not(self.z)))
 
     def __mul__(self, o):
-        if isinstance(o, Bit) or (isinstance(o, (int, np.integer, bool, np.bool_)) and int(o) in (0, 1)):
+        if isinstance(o, Bit) or (not isinstance(o, SInt) and isinstance(o, (int, np.integer, bool, np.bool_)) and int(o) in (0, 1)):
             return self & o
         return SInt(self.S, zi(self)) * o
 
@@ -245,7 +247,7 @@ class Bit:
         return SInt(self.S, zi(self)) % m
 
     def __eq__(self, o):
-        if isinstance(o, (Bit, bool, np.bool_)) or (isinstance(o, (int, np.integer)) and int(o) in (0, 1)):
+        if isinstance(o, (Bit, bool, np.bool_)) or (not isinstance(o, SInt) and isinstance(o, (int, np.integer)) and int(o) in (0, 1)):
             return Bit(self.S, z3.simplify(self.z == Bit.lift(self.S, o).z))
         if isinstance(o, (SInt, int, np.integer)):
             return Bit(self.S, z3.simplify(zi(self) == zi(o)))
@@ -277,15 +279,26 @@ class Bit:
         return self
 
 
-class SInt:
-    """mathematical integer (z3 Int).  Comparisons give Bit; int()/index forks by enumerating feasible values."""
+SENTINEL = 1000003  # concrete value carried by the int base class; a leak of it cannot satisfy a symbolic identity
 
-    __slots__ = ("S", "z")
-    __array_priority__ = 0
+
+class SInt(int):
+    """mathematical integer (z3 Int).  Comparisons give Bit; int()/index forks by enumerating feasible values.
+
+    Subclass of `int` so that `isinstance(x, int)` guards in library code accept it.  Every arithmetic/comparison
+    operator is overridden; operators that are not modelled raise TypeError instead of silently using the base value.
+    C-level consumers that read the int payload directly (range(), list repetition) would see SENTINEL: such a leak
+    yields results that do not depend on the symbol, hence a failing identity whose model does not replay (inconclusive),
+    never a false proof."""
+
+    def __new__(cls, S, zexpr):
+        o = int.__new__(cls, SENTINEL)
+        o.S = S
+        o.z = zexpr
+        return o
 
     def __init__(self, S, zexpr):
-        self.S = S
-        self.z = zexpr
+        pass
 
     def _b(self, o, f):
         if isinstance(o, float):
@@ -314,11 +327,21 @@ class SInt:
     def __neg__(self):
         return SInt(self.S, -self.z)
 
+    def __pos__(self):
+        return self
+
     def __mod__(self, m):
         return self._b(m, lambda a, b: a % b)
 
     def __floordiv__(self, m):
         return self._b(m, lambda a, b: a / b)  # z3 Int division = floor for positive divisors
+
+    def _unsupported(self, *a, **k):
+        raise TypeError("operation not modelled on symbolic integers")
+
+    __truediv__ = __rtruediv__ = __pow__ = __rpow__ = __lshift__ = __rshift__ = __rlshift__ = __rrshift__ = _unsupported
+    __and__ = __or__ = __xor__ = __rand__ = __ror__ = __rxor__ = __invert__ = __divmod__ = __rdivmod__ = _unsupported
+    __rmod__ = __rfloordiv__ = __abs__ = __float__ = __round__ = __trunc__ = __floor__ = __ceil__ = _unsupported
 
     def _cmp(self, o, f):
         try:
@@ -360,13 +383,22 @@ class SInt:
     def __index__(self):
         return self.concretize()
 
-    __int__ = __index__
+    def __int__(self):
+        return self.concretize()
 
     def __hash__(self):
         return hash(self.z)
 
     def __repr__(self):
         return f"SInt({self.z})"
+
+    __str__ = __repr__
+
+    def __format__(self, spec):
+        return repr(self)
+
+    def __reduce__(self):
+        raise TypeError("symbolic integers are not picklable")
 
 
 def explore(build, max_paths=4096):
